@@ -145,6 +145,9 @@ class SimWorld(object):
         self.kernel.behaviour_tape = list(tape)
         if default_beh is not None:
             self.kernel.default_beh = dict(default_beh)
+        def _spawn_cost():
+            self.loop._vt += 1e-6
+        self.kernel.spawn_cost = _spawn_cost
         self.blocked = False
         self.blocked_where = None
         self.cb_slept = 0.0
@@ -358,7 +361,15 @@ class SimWorld(object):
             self.run_idle()
             nt = self.loop._next_timer()
             if nt is None:
-                return True
+                # no loop work left; let time pass for the processes: a
+                # scheduled exit (signal reaction, SIGKILL latency, own
+                # lifetime) still happens even though nobody is waiting
+                kt = self.kernel.next_event_time()
+                if kt is None or kt - start > budget:
+                    return True
+                self.loop.set_time(kt)
+                self.kernel.apply_due()
+                continue
             if nt - start > budget:
                 return False
             self.loop.set_time(nt)
@@ -536,6 +547,10 @@ class SimWorld(object):
     def live(self, owner=None):
         self.kernel.apply_due()
         return self.kernel.live_workers(owner)
+
+    def eff_live(self, owner=None):
+        self.kernel.apply_due()
+        return self.kernel.effective_live(owner)
 
     def parsed_events(self, name=None):
         out = []
